@@ -36,6 +36,7 @@ fn classify<F: Float>(c: &Case, pr: &Prep<F>, obs: &mut Obs) -> (bool, bool) {
         DataKind::Cloud => "data_cloud",
         DataKind::Duplicates => "data_duplicates",
         DataKind::Lattice => "data_lattice",
+        DataKind::DispersedOffOrigin => "data_dispersed_off_origin",
     });
     obs.class(if c.data.f32_ { "f32" } else { "f64" });
     obs.class(match c.metric {
@@ -108,6 +109,11 @@ fn assign_impl<F: Float + std::fmt::Debug, D: Distance<F> + std::fmt::Debug + 's
     let (dup, _few) = classify(c, &pr, obs);
     let hull = hull_of(&pr, &c.init);
     obs.class_if(hull.len() > pr.n, "precomputed_outside_data_box");
+    {
+        let (lo, hi) = bbox(&pr.x64, pr.p);
+        let excl = (0..pr.p).any(|j| lo[j] > 0.0 || hi[j] < 0.0);
+        obs.class_if(excl && c.init == Init::Para && c.max_iter <= 2, "para_small_budget_origin_outside_box");
+    }
     let tol = c.tol.value(c.data.f32_);
     let rng = Xoshiro256Plus::seed_from_u64(c.seed);
     let Some(f) = fit(obs, &pr, c.k, rng, dist.clone(), &c.init, c.c0_layout, c.max_iter, tol, c.n_runs) else { return };
